@@ -267,7 +267,15 @@ def rule_fifo(P):
         r.bad("K4:insert_common_timeout_inorder:insert-after-when:%s" % rel, ins_after[0].where(), f.name,
               "the new event is inserted after an element when new %s element; it must be new >= element (FIFO among equal deadlines, sorted otherwise)" % rel)
     # INSERT_AFTER target is the cursor; the function returns after inserting; fall-through inserts at head
-    tgt_ok = any(is_e(strip(el.e[2]), "fld") and root_var(el.e[2]) is not None and root_var(el.e[2])[1] == cur[1] and eq(strip(el.e[3]), ev) for el in ins_after)
+    # the scanned element may be remembered in another local and linked behind after the loop (`pred = e; break; ... INSERT_AFTER(pred)`): a local all of whose
+    # non-NULL stores are the cursor stands for it
+    alias = {cur[1]}
+    for nm in set(strip(lh)[1] for e_, lh, op_, rh in f.stores() if is_e(strip(lh), "var")):
+        st = [strip(rh) for e_, lh, op_, rh in f.stores() if is_e(strip(lh), "var") and strip(lh)[1] == nm and rh is not None]
+        st = [x for x in st if not (is_e(x, "null") or (is_e(x, "int") and x[1] == 0) or (is_e(x, "cast") and is_e(strip(x), "int") and strip(x)[1] == 0))]
+        if st and all(eq(x, cur) for x in st):
+            alias.add(nm)
+    tgt_ok = any(is_e(strip(el.e[2]), "fld") and root_var(el.e[2]) is not None and root_var(el.e[2])[1] in alias and eq(strip(el.e[3]), ev) for el in ins_after)
     w = f.path_avoiding(ins_after[-1].pos(), lambda el: el in ins_head or el in rev, lambda el: el.e[0] == "ret")
     r.inst("shape", {"after_links_cursor_to_new": tgt_ok, "continues_after_insert": bool(w)})
     if not tgt_ok:
